@@ -306,7 +306,9 @@ class Model:
             if not unassigned:
                 # Found solution
                 sol = {n: next(iter(d)) for n, d in domains.items() if not n.startswith("_")}
-                solutions.append(sol)
+                # Unnamed helper variables are searched but not reported: report each named assignment once
+                if sol not in solutions:
+                    solutions.append(sol)
                 return len(solutions) >= solution_limit
 
             # MRV: pick variable with smallest domain
